@@ -18,6 +18,7 @@ From Ragc Require Export Consts_lz MurMur.
 
 Record lzst := mk_lzst {
   refp : list N;      (* reference, padded with key_len bytes of pad_byte by prepare *)
+  refp_len : N;       (* self.reference.len() (a Vec knows its length; kept equal to lenN refp) *)
   ref_len : N;        (* length before padding *)
   ht : list N;        (* ht_lp: i / HASHING_STEP or empty_slot *)
   ht_mask : N;
@@ -34,7 +35,7 @@ Definition lz_new (m : N) : outcome lzst :=
     let kl := d + key_len_add in
     let km := if key_mask_full_from <=? kl then max_u64
               else N.shiftl 1 (key_bits_per_sym * kl) - 1 in
-    Ok (mk_lzst [] 0 [] 0 m kl km)
+    Ok (mk_lzst [] 0 0 [] 0 m kl km)
   end.
 
 (* ---------------------------------------------------------------- k-mer codes *)
@@ -144,7 +145,8 @@ Fixpoint back_go (fuel : nat) (tgt rp : list N) (tp hp max_back b : N) : N :=
   end.
 
 Section Probe.
-  Variables (st : lzst) (code : N) (tgt : list N) (tp max_len npl ht_pos : N).
+  (* tsuf = &target[text_pos..] *)
+  Variables (st : lzst) (code : N) (tgt tsuf : list N) (tp max_len npl ht_pos : N).
 
   (* for j in 0..MAX_NO_TRIES *)
   Fixpoint probe (n : nat) (j : N) (bp bb bf mtu : N) : outcome (N * N * N) :=
@@ -158,7 +160,7 @@ Section Probe.
         if slot =? empty_slot then Ok (bp, bb, bf)
         else
           let h_pos := slot * hashing_step in
-          if lenN (refp st) <=? h_pos then probe n' (j + 1) bp bb bf mtu
+          if refp_len st <=? h_pos then probe n' (j + 1) bp bb bf mtu
           else
             let rs := skipnN h_pos (refp st) in
             match get_code st rs with
@@ -168,7 +170,7 @@ Section Probe.
             | Ok (Some rc) =>
               if negb (rc =? code) then probe n' (j + 1) bp bb bf mtu
               else
-                let f_len := matching_length (skipnN tp tgt) rs max_len in
+                let f_len := matching_length tsuf rs max_len in
                 if key_len st <=? f_len then
                   let max_back := N.min (N.min npl h_pos) tp in
                   let b_len := back_go (N.to_nat max_back) tgt (refp st) tp h_pos max_back 0 in
@@ -181,12 +183,12 @@ Section Probe.
     end.
 End Probe.
 
-Definition find_best_match_lp (st : lzst) (code hash : N) (tgt : list N) (tp max_len npl : N)
+Definition find_best_match_lp (st : lzst) (code hash : N) (tgt tsuf : list N) (tp max_len npl : N)
   : outcome (option (N * N * N)) :=
   match ht st with
   | [] => Ok None
   | _ :: _ =>
-    match probe st code tgt tp max_len npl (N.land hash (ht_mask st)) (N.to_nat max_no_tries) 0 0 0 0 (mml st) with
+    match probe st code tgt tsuf tp max_len npl (N.land hash (ht_mask st)) (N.to_nat max_no_tries) 0 0 0 0 (mml st) with
     | Panic => Panic
     | Err => Err
     | Ok (bp, bb, bf) =>
@@ -235,21 +237,22 @@ Section Enc.
   Variable hash : N -> N.
   Variable st : lzst.
   Variable tgt : list N.
+  Variable tlen : N.                    (* text_size = target.len() *)
 
-  Fixpoint enc_loop (fuel : nat) (i pp npl : N) (xprev : option N) (renc : list N) : outcome (list N) :=
+  (* suf = &target[i..] is carried along (the Rust indexes target directly) *)
+  Fixpoint enc_loop (fuel : nat) (i : N) (suf : list N) (pp npl : N) (xprev : option N) (renc : list N)
+    : outcome (list N) :=
     match fuel with
     | O => Err
     | S f =>
-      let tlen := lenN tgt in
-      let suf := skipnN i tgt in
       if i + key_len st <? tlen then
         let lit := fun (x : option N) =>
           match suf with
           | [] => Panic
-          | c :: _ =>
+          | c :: suf' =>
             match add_u32 pp 1 with
             | None => Panic
-            | Some pp' => obnd (emit_literal c renc) (fun r => enc_loop f (i + 1) pp' (npl + 1) x r)
+            | Some pp' => obnd (emit_literal c renc) (fun r => enc_loop f (i + 1) suf' pp' (npl + 1) x r)
             end
           end in
         let xo := match xprev with
@@ -262,10 +265,10 @@ Section Enc.
         | Ok None =>
           let nrun := get_nrun_len suf (tlen - i) in
           if min_nrun_len <=? nrun then
-            obnd (ser_nrun nrun) (fun b => enc_loop f (i + nrun) pp 0 None (rev_append b renc))
+            obnd (ser_nrun nrun) (fun b => enc_loop f (i + nrun) (skipnN nrun suf) pp 0 None (rev_append b renc))
           else lit None
         | Ok (Some code) =>
-          match find_best_match_lp st code (hash code) tgt i (tlen - i) npl with
+          match find_best_match_lp st code (hash code) tgt suf i (tlen - i) npl with
           | Panic => Panic
           | Err => Err
           | Ok None => lit (Some code)
@@ -284,7 +287,7 @@ Section Enc.
               | Err => Err
               | Ok renc2 =>
                 match ser_match st amp len_to_encode pp1, add_u32 amp total with
-                | Ok b, Some pp2 => enc_loop f (i1 + total) pp2 0 (Some code) (rev_append b renc2)
+                | Ok b, Some pp2 => enc_loop f (i1 + total) (skipnN lf suf) pp2 0 (Some code) (rev_append b renc2)
                 | Err, _ => Err
                 | _, _ => Panic
                 end
@@ -306,7 +309,7 @@ Fixpoint zip_all_eq (a b : list N) : bool :=
 
 Definition lz_encode (hash : N -> N) (st : lzst) (tgt : list N) : outcome (list N) :=
   if (lenN tgt =? ref_len st) && zip_all_eq tgt (refp st) then Ok []
-  else obnd (enc_loop hash st tgt (S (length tgt)) 0 0 0 None []) (fun renc => Ok (rev renc)).
+  else obnd (enc_loop hash st tgt (lenN tgt) (S (length tgt)) 0 tgt 0 0 None []) (fun renc => Ok (rev renc)).
 
 (* ---------------------------------------------------------------- decode *)
 Definition is_literal (c : N) : bool :=
@@ -395,7 +398,7 @@ Fixpoint decode_go (st : lzst) (fuel : nat) (data : list N) (rout : list N) (pp 
           match (if len =? to_end_len then sub_u64 (ref_len st) ref_pos else Some len) with
           | None => Panic
           | Some alen =>
-            if ref_pos + alen <=? lenN (refp st)
+            if ref_pos + alen <=? refp_len st
             then decode_go st f r' (rev_append (firstnN alen (skipnN ref_pos (refp st))) rout) (ref_pos + alen)
             else Panic
           end
@@ -483,7 +486,7 @@ Definition lz_prepare (hash : N -> N) (st : lzst) (reference : list N) : outcome
     let size := ht_size_of cnt in
     let mask := size - 1 in
     obnd (build_go hash (key_len st) (lenN rp) mask (S (length rp)) 0 rp (repeat empty_slot (N.to_nat size)))
-      (fun t => Ok (mk_lzst rp (lenN reference) t mask (mml st) (key_len st) (key_mask st)))).
+      (fun t => Ok (mk_lzst rp (lenN rp) (lenN reference) t mask (mml st) (key_len st) (key_mask st)))).
 
 (* ---------------------------------------------------------------- public entry points *)
 Definition encode_with (hash : N -> N) (m : N) (reference tgt : list N) : outcome (list N) :=
